@@ -312,6 +312,27 @@ def range_obligations(pid, tier, seed):
                                 pre=['0 <= bm < 3', '0 <= which < 2'], params=P, timeout=timeout))
     bounds.update(per_condition_timeout_s=timeout, index_range='every i, j in [-n-2, n+1] and open slice ends, all ordered pairs of consecutive accesses')
     obs += leaf_ir_obligations(pid, tier, 'range')
+    # engine E2 at tree level: BTree_findRangeEnd of the native-key families from IR on catalogue templates
+    c5_, _ = cat('OO', 'c', 'BTree', 5, 2, 2)
+    c6_, _ = cat('OO', 'c', 'BTree', 6, 2, 2)
+    base_ = [s_ for s_ in shapes.stratify(c5_, 2, 2) if s_[0] != 'E']
+    base_ += [s_ for s_ in shapes.stratify_large(c6_, 2, 2) if s_ not in base_]
+    big_ = [s_ for s_ in sorted(c5_ if tier == 'quick' else c6_, key=repr) if s_ not in base_ and s_[0] != 'E']
+    stale_ = [v for v in (shapes.stale_variant(s_) for s_ in base_) if v is not None and shapes.n_ranks(v) <= (9 if tier == 'quick' else 12)]
+    fams_ = ['II', 'UU', 'LL', 'QQ'] if tier == 'quick' else ['II', 'UU', 'LL', 'QQ', 'IU', 'LQ']
+    for fam in fams_:
+        tps = base_ + stale_ + (big_ if fam == fams_[0] else [])
+        for tp in tps:
+            mm = shapes.n_ranks(tp)
+            for low in (0, 1):
+                for ex in (0, 1):
+                    oid = '%s/ir/%s/tree_range/%s/low%d/ex%d' % (pid, fam, sid(tp), low, ex)
+                    if any(o_['id'] == oid for o_ in obs[-4 * len(tps):]):
+                        continue
+                    obs.append(dict(id=oid, engine='llsym', mod='h_kernel', fn='tree_range_native', nk=0,
+                                    args=[('n', 'int')] + [('k%d' % i, 'int') for i in range(mm)],
+                                    params=dict(family=fam, kernel='tree_range', tpl=tp, low=low, exclude=ex), timeout=300 if tier == 'quick' else 900))
+    bounds['ir_tree_range'] = 'BTree_findRangeEnd from IR: stratified core + stale-separator variants (all families), complete N=%d catalogue (first family)' % (5 if tier == 'quick' else 6)
     bounds['ir_leaf_kernels'] = 'Bucket_findRangeEnd (low/high end, inclusive/exclusive) on leaves of 0..3 (thorough 0..6) symbolic native keys'
     return {'obligations': obs, 'bounds': bounds}
 
@@ -1229,8 +1250,8 @@ PROPS = {
                     'ordered symbolic keys (thinned trees, single-child roots, stale separators, one-key first/last leaves '
                     'are in the stratified core), and asserts equality with the model slice. CrossHair exhausts the path tree.' + IR_LEAF_TEXT +
                     'Bucket_findRangeEnd returns the index of the first key >= / > the bound (low end) or the last key <= / < it (high end), or '
-                    '0 when no key qualifies, in the family\'s signed or unsigned order.',
-        functions=['_OOBTree.so: BTree_rangeSearch, BTree_findRangeEnd, BTree_maxminKey, Bucket_findRangeEnd, '
+                    '0 when no key qualifies, in the family\'s signed or unsigned order.' + ' Engine E2 at tree level: BTree_findRangeEnd of the native-key families from IR on fake multi-level trees (catalogue templates incl. stale-separator variants) with fully symbolic words: the reported (leaf, offset) is the smallest key >= / > the bound (low end) resp. the largest key <= / < it (high end) in chain order, 0 iff no key qualifies; nothing is modified, every node unpinned, exactly the reported leaf gets a reference.',
+        functions=['engine E2 at tree level (LLVM IR of the native-key family sources): BTree_findRangeEnd, Bucket_findRangeEnd, BTree_lastBucket', '_OOBTree.so: BTree_rangeSearch, BTree_findRangeEnd, BTree_maxminKey, Bucket_findRangeEnd, '
                    'Bucket_rangeSearch, Bucket_maxminKey, BTreeItems_seek/_item/_slice/_length, BTreeIter_next, buildBTreeIter, '
                    'PreviousBucket', 'BTrees._base: _Tree.keys/values/items/iter*/minKey/maxKey/_findbucket, _TreeItems, '
                    '_BucketBase._range/minKey/maxKey, Bucket.keys/values/items/iter*'],
